@@ -55,6 +55,25 @@ Loop fragment (kernel specs with `loops=True`; the block loops of CompoundInterv
       `b.has_overlap(other, m, full_span=False)` on a SingleInterval-typed `b` then calls that kernel.
     * `cut`: the kernel stops before the first statement that calls the named function and returns the named locals
       (the remainder is pinned textually in `<kernel>_tail`).
+    * `cut` may also name the statement itself (`before_stmt`, compared as an AST) instead of a called method.
+    * reading-frame cleaning (gene/cds.py, view `CDSV` = (chromosome_location : CI, frames : List CDSFrame) of a
+      parent-less chromosome-level CDSInterval, guarded by `cdsv_view_guards`: `self.strand` is
+      `self.chromosome_location.strand`, `frames` is assigned in `__init__` only):
+        - `pinned={param: literal}`: trailing parameters pinned to the literal every translated CALLER passes (checked
+          at each call site `self._exon_iter(False)`; unlike `fixed` it need not be the default); `x is True` and
+          `a if x else b` on a pinned parameter are decided statically and only the branch taken is translated;
+        - `self._exon_iter(False)` / `self._frame_iter(False)` call the generator kernels (refused when the callee could
+          raise: a generator runs lazily, consuming it eagerly would then reorder effects);
+        - `zip_longest(xs, ys)` (imported from itertools, no fillvalue) -> `zipLongest xs ys : List (Option a × Option b)`
+          — never a zip; the loop variables are Optional, and
+          `if x is None or y is None: <… raise/return/continue/break>` becomes a match whose all-`some` arm continues
+          with the names narrowed to their values (any other use of an Optional non-int local is refused);
+        - `sum(<int elt> for p in <list>)` -> `pySum (List.map …)`, `p[0]` / `p[1]` on a 2-tuple loop variable,
+          `frame.value`, `next_frame != frame` on CDSFrame values;
+        - `<CI>.relative_interval_to_parent_location(a, b, s)` calls that CUT kernel: the value is its state at its
+          cut (`RelOut`), which the caller can only return at its own cut.
+    * an assignment whose value mentions `.parent` / `.parent_id` (as an attribute, not e.g. `.parent_to_relative_pos`)
+      is parent bookkeeping and skipped.
     * the CI view itself is guarded: `blocks`, `_single_intervals`, `num_blocks`, `__len__` and the assignments of
       `_starts/_ends/strand/length` in `CompoundInterval.__init__` must read as they do in the pinned tree
       (`ci_view_guards`), otherwise every CompoundInterval kernel is refused.
@@ -62,6 +81,7 @@ Loop fragment (kernel specs with `loops=True`; the block loops of CompoundInterv
 import ast
 import json
 import os
+import re
 import sys
 
 
@@ -444,7 +464,7 @@ PYEXC = {"InvalidPositionException", "InvalidStrandException", "ValueError", "Ty
 LEAN_TYPE = {"Int": "Int", "Bool": "Bool", "Strand": "Strand", "CDSFrame": "CDSFrame", "CDSPhase": "CDSPhase",
              "SI": "SI", "OptSI": "Option SI", "Sym": "List Char", "Bins": "BinsResult", "VI": "VI",
              "CoordFmt": "CoordFmt", "DistanceType": "DistanceType", "CI": "CI", "RelOut": "RelOut",
-             "CombineOut": "CombineOut"}
+             "CombineOut": "CombineOut", "CDSV": "CDSV", "IntLists2": "(List Int × List Int)"}
 
 
 # methods of a SingleInterval-typed value that are themselves kernels: attr -> (kernel, argument types, result type).
@@ -468,6 +488,10 @@ CI_METHODS = {
     "parent_to_relative_pos": ("CompoundInterval_parent_to_relative_pos", ["Int"], "Int"),
     "relative_to_parent_pos": ("CompoundInterval_relative_to_parent_pos", ["Int"], "Int"),
     "_combine_blocks": ("CompoundInterval_combine_blocks", ["Bool"], "CombineOut"),
+    # a CUT kernel: its value is the callee's state at ITS cut (`RelOut`), on which the translator offers no operation —
+    # a caller can only hand it on to its own cut
+    "relative_interval_to_parent_location": ("CompoundInterval_relative_interval_to_parent_location",
+                                             ["Int", "Int", "Strand"], "RelOut"),
 }
 CI_METHOD_PARAMS = {"_combine_blocks": ["preserve_overlappers"]}
 # attributes of a CI-typed value: Python attribute -> (Lean projection, type); valid under `ci_view_guards`
@@ -480,7 +504,19 @@ CI_ATTRS = {
     "_ends": ("ends", "List:Int"),
     "length": ("length", "Int"),
 }
+# attributes of a CDSV-typed value (a parent-less chromosome-level CDSInterval): valid under `cdsv_view_guards`
+CDSV_ATTRS = {
+    ("chromosome_location",): ("chromosome_location", "CI"),
+    ("frames",): ("frames", "List:CDSFrame"),
+    ("strand",): ("chromosome_location.strand", "Strand"),       # AbstractInterval.strand
+}
+# generator methods of a CDSV-typed value that are themselves kernels (called with their parameter pinned to a literal)
+CDSV_METHODS = {
+    "_exon_iter": ("CDSInterval_exon_iter", "List:SI"),
+    "_frame_iter": ("CDSInterval_frame_iter", "List:CDSFrame"),
+}
 EMITTED = set()
+RAISES = {}       # emitted kernel -> can its body raise?
 
 
 def lean_type(t):
@@ -489,6 +525,14 @@ def lean_type(t):
         return LEAN_TYPE[t]
     if t == "Opt:Int":
         return "Option Int"
+    if t.startswith("Opt:"):
+        e = lean_type(t[4:])
+        return None if e is None else (f"Option {e}" if " " not in e or e.startswith("(") else f"Option ({e})")
+    if t.startswith("ZipL:"):
+        # element of `zip_longest(xs, ys)`: each side is None once its list is exhausted
+        parts = t.split(":")[1:]
+        es = [lean_type("Opt:" + x) for x in parts]
+        return None if (len(parts) != 2 or None in es) else "(" + " × ".join(es) + ")"
     if t.startswith("Iter1:"):
         e = lean_type(t[6:])
         return None if e is None else f"({e} × List {e})"
@@ -571,6 +615,49 @@ def ci_view_guards(repo):
     return bad
 
 
+def cdsv_view_guards(repo):
+    """The hand-written `CDSV` view (GenPrelude) reads a chromosome-level CDSInterval as (chromosome_location : CI,
+    frames : List CDSFrame) with `self.strand` = `self.chromosome_location.strand`.  Returns the violated expectations."""
+    bad = []
+    try:
+        cls = find_class(module_of(repo, "gene/cds.py"), "CDSInterval")
+        if [ast.unparse(b) for b in cls.bases] != ["AbstractFeatureInterval"]:
+            bad.append("CDSInterval is not a direct subclass of AbstractFeatureInterval only")
+        for fn in cls.body:
+            if isinstance(fn, ast.FunctionDef) and fn.name in ("strand", "chromosome_location", "__getattr__",
+                                                               "__getattribute__"):
+                bad.append(f"CDSInterval defines {fn.name} itself")
+            if isinstance(fn, ast.FunctionDef) and fn.name != "__init__":
+                for nd in ast.walk(fn):
+                    if isinstance(nd, ast.Attribute) and isinstance(nd.ctx, (ast.Store, ast.Del)) \
+                            and nd.attr in ("frames", "_strand", "_genomic_starts", "_genomic_ends"):
+                        bad.append(f"CDSInterval.{fn.name} assigns .{nd.attr}")
+        imod = module_of(repo, "gene/interval.py")
+        seen = 0
+        for c in imod.body:
+            if isinstance(c, ast.ClassDef):
+                for fn in c.body:
+                    if isinstance(fn, ast.FunctionDef) and fn.name == "strand":
+                        seen += 1
+                        if src_of(body_no_doc(fn)) != canon("return self.chromosome_location.strand"):
+                            bad.append(f"{c.name}.strand is not `return self.chromosome_location.strand`")
+        if not seen:
+            bad.append("no `strand` property in gene/interval.py")
+    except Exception as e:  # noqa
+        bad.append(f"{type(e).__name__}: {e}")
+    return bad
+
+
+def module_imports(mod):
+    """name -> module for the module-level `from M import a, b` statements"""
+    out = {}
+    for node in mod.body:
+        if isinstance(node, ast.ImportFrom) and node.level == 0:
+            for a in node.names:
+                out[a.asname or a.name] = node.module
+    return out
+
+
 def parentless_guards(repo):
     """facts about parent-less SingleIntervals that the `parentless` view decides statically"""
     bad = []
@@ -629,7 +716,7 @@ class _EndTry(ast.stmt):
 class K:
     """Compiler state for one kernel."""
 
-    def __init__(self, spec, modconsts, cls=None, excsub=None):
+    def __init__(self, spec, modconsts, cls=None, excsub=None, imports=None):
         self.spec = spec
         self.types = dict(spec["args"])
         self.ret = spec["ret"]
@@ -641,6 +728,8 @@ class K:
         self.excsub = excsub           # exc.py subclass table
         self.loops = bool(spec.get("loops"))
         self.fixed = dict(spec.get("fixed", {}))
+        self.fixed.update(spec.get("pinned", {}))   # parameters pinned to the literal every translated caller passes
+        self.imports = imports or {}
         self.aux = []                  # auxiliary definitions (loop functions) emitted before the kernel
         self.ctx = []                  # stack of enclosing loops
         self.nloops = 0
@@ -700,6 +789,12 @@ class K:
                 if t == "CI" and len(chain) == 2 and chain[1] in CI_ATTRS:
                     proj, pt = CI_ATTRS[chain[1]]
                     return [], f"{lname(chain[0])}.{proj}", pt
+                if t == "CDSV" and tuple(chain[1:]) in CDSV_ATTRS:
+                    proj, pt = CDSV_ATTRS[tuple(chain[1:])]
+                    return [], f"{lname(chain[0])}.{proj}", pt
+                if t == "CDSV" and len(chain) == 3 and chain[1] == "chromosome_location" and chain[2] in CI_ATTRS:
+                    proj, pt = CI_ATTRS[chain[2]]
+                    return [], f"{lname(chain[0])}.chromosome_location.{proj}", pt
                 if t == "VI":
                     if chain[1:] == ["chromosome_location", "start"]:
                         return [], f"{chain[0]}.vstart", "Int"
@@ -809,6 +904,12 @@ class K:
                     binds, a, ta = self.as_int(binds, a, ta)
                     binds, b_, tb = self.as_int(binds, b_, tb)
                     items[i], items[i + 1] = (a, ta), (b_, tb)
+                if self.loops and isinstance(op, (ast.Is, ast.IsNot, ast.Eq, ast.NotEq)) and ta == "Prop" \
+                        and a in ("True", "False") and tb == "Bool" and b_ in ("true", "false"):
+                    # a parameter pinned to a bool literal against `True` / `False`: decided statically
+                    same = (a == "True") == (b_ == "true")
+                    conj.append("True" if same != isinstance(op, (ast.IsNot, ast.NotEq)) else "False")
+                    continue
                 if ta == "None" or tb == "None":
                     raise Unsupported("comparison with None")
                 if ta != tb and not ({ta, tb} <= {"Int"}):
@@ -823,6 +924,8 @@ class K:
             return binds, "(" + " ∧ ".join(conj) + ")", "Prop"
         if isinstance(n, ast.IfExp):
             bt, ct, tt = self.expr(n.test)
+            if self.loops and not bt and tt == "Prop" and ct in ("True", "False"):
+                return self.expr(n.body if ct == "True" else n.orelse)     # only the branch taken is evaluated
             ba, ca, ta = self.expr(n.body)
             bb, cb, tb = self.expr(n.orelse)
             if bt or ba or bb:
@@ -867,6 +970,12 @@ class K:
             if sl.lower is None and sl.upper is None and is_m1(sl.step):
                 return b, f"{c}.reverse", t             # xs[::-1]
             raise Unsupported(f"slice {ast.unparse(n)}")
+        if self.loops and isinstance(n, ast.Subscript) and isinstance(n.value, ast.Name) \
+                and self.types.get(n.value.id, "").startswith("Pair:") and isinstance(n.slice, ast.Constant) \
+                and not isinstance(n.slice.value, bool) and n.slice.value in (0, 1):
+            parts = self.types[n.value.id].split(":")[1:]
+            if len(parts) == 2:
+                return [], f"{lname(n.value.id)}.{n.slice.value + 1}", parts[n.slice.value]      # p[0] / p[1] of a 2-tuple
         if self.loops and isinstance(n, ast.Subscript) and self.index_kind(n.slice):
             b, c, t = self.expr(n.value)
             if t.startswith("List:") and lean_type(t[5:]) is not None:
@@ -926,6 +1035,34 @@ class K:
                 if not (ta.startswith("List:") and tb.startswith("List:")) or ":" in ta[5:] or ":" in tb[5:]:
                     raise Unsupported(f"zip of {ta}, {tb}")
                 return ba + bb, f"(List.zip {ca} {cb})", f"List:Pair:{ta[5:]}:{tb[5:]}"
+            if self.loops and fname == "zip_longest" and len(n.args) == 2 and not n.keywords:
+                # fillvalue defaults to None: List (Option a × Option b), NOT a zip (the lengths may differ)
+                if self.imports.get("zip_longest") != "itertools":
+                    raise Unsupported("zip_longest is not imported from itertools")
+                (ba, ca, ta), (bb, cb, tb) = self.expr(n.args[0]), self.expr(n.args[1])
+                if not (ta.startswith("List:") and tb.startswith("List:")) or ":" in ta[5:] or ":" in tb[5:]:
+                    raise Unsupported(f"zip_longest of {ta}, {tb}")
+                return ba + bb, f"(zipLongest {ca} {cb})", f"List:ZipL:{ta[5:]}:{tb[5:]}"
+            if self.loops and fname == "sum" and len(n.args) == 1 and not n.keywords \
+                    and isinstance(n.args[0], (ast.GeneratorExp, ast.ListComp)):
+                g = n.args[0]
+                if len(g.generators) != 1 or g.generators[0].ifs or g.generators[0].is_async:
+                    raise Unsupported("sum(): one `for` clause without conditions")
+                gen = g.generators[0]
+                bi, ci, ti = self.expr(gen.iter)
+                pat, targets = self.loop_target(gen.target, ti)
+                saved = dict(self.types)
+                for nm, _ in targets:
+                    if nm in saved:
+                        raise Unsupported(f"comprehension variable {nm} shadows a local")
+                self.types.update(targets)
+                try:
+                    be, ce, te = self.expr(g.elt)
+                finally:
+                    self.types = saved
+                if be or te != "Int":
+                    raise Unsupported("sum() over an effectful or non-int element")
+                return bi, f"(pySum (List.map (fun {pat} => {ce}) {ci}))", "Int"
             if self.loops and fname == "islice" and len(n.args) == 3 and not n.keywords:
                 b, c, t = self.expr(n.args[0])
                 k = n.args[1].value if isinstance(n.args[1], ast.Constant) else None
@@ -993,6 +1130,25 @@ class K:
                         cm = f"(decide {cm})"
                     tmp = self.fresh()
                     return bo + bm + [(tmp, f"{kname} {lname(ch[0])} {co} {cm}")], tmp, "Bool"
+                if ch and len(ch) == 2 and self.types.get(ch[0]) == "CDSV" and ch[1] in CDSV_METHODS:
+                    # self._exon_iter(False): the callee kernel is the view with its parameters pinned to these literals
+                    kname, rty = CDSV_METHODS[ch[1]]
+                    if kname not in EMITTED:
+                        raise Unsupported(f"{kname} not generated before its caller")
+                    callee = next(k_ for k_ in KERNELS if k_["name"] == kname)
+                    pinned = callee.get("pinned", {})
+                    if callee["cls"] != self.spec["cls"] or callee["fn"] != ch[1]:
+                        raise Unsupported(f"{ch[1]} is not a method of {self.spec['cls']}")
+                    if n.keywords or len(n.args) != len(pinned):
+                        raise Unsupported(f"{ch[1]}: expected {len(pinned)} positional literal argument(s)")
+                    for a_, pv in zip(n.args, pinned.values()):
+                        if not (isinstance(a_, ast.Constant) and a_.value is pv):
+                            raise Unsupported(f"{ch[1]}: argument {ast.unparse(a_)} is not the pinned literal {pv}")
+                    if RAISES.get(kname, True):
+                        # a generator runs lazily: an exception after the first yield would interleave with the consumer
+                        raise Unsupported(f"{kname} can raise: consuming it eagerly would not be faithful")
+                    tmp = self.fresh()
+                    return [(tmp, f"{kname} {lname(ch[0])}")], tmp, rty
                 if ch and len(ch) == 2 and self.types.get(ch[0]) == "CI" and ch[1] in CI_METHODS:
                     kname, atys, rty = CI_METHODS[ch[1]]
                     if kname not in EMITTED:
@@ -1184,6 +1340,10 @@ class K:
             if lean_type(elem) is None:
                 raise Unsupported(f"loop element type {elem}")
             return lname(target.id), [(target.id, elem)]
+        if isinstance(target, ast.Tuple) and elem.startswith("ZipL:") and len(target.elts) == 2 \
+                and all(isinstance(e, ast.Name) for e in target.elts) and target.elts[0].id != target.elts[1].id:
+            ets = ["Opt:" + x for x in elem.split(":")[1:]]
+            return "(" + ", ".join(lname(e.id) for e in target.elts) + ")", [(e.id, t) for e, t in zip(target.elts, ets)]
         if isinstance(target, ast.Tuple) and elem.startswith("Pair:") and len(target.elts) == 2 \
                 and all(isinstance(e, ast.Name) for e in target.elts) and target.elts[0].id != target.elts[1].id:
             ets = elem.split(":")[1:]
@@ -1318,6 +1478,40 @@ class K:
             out.append((nm, t1, f"if {self.as_prop(ct, tt)} then {c1} else {c2}"))
         return out
 
+    def none_guard(self, s, rest):
+        """`if x is None [or y is None …]: <statements ending in raise/return/continue/break>` on Optional locals
+        (other than the Optional[int] locals, which have their own treatment) -> a match: all `some` continues with
+        the names narrowed to their values, anything else takes the guard's body.  None when not of that shape."""
+        if not self.loops or s.orelse or not s.body or self.pure:
+            return None
+        tests = s.test.values if isinstance(s.test, ast.BoolOp) and isinstance(s.test.op, ast.Or) else [s.test]
+        names = []
+        for t in tests:
+            if not (isinstance(t, ast.Compare) and len(t.ops) == 1 and isinstance(t.ops[0], ast.Is)
+                    and isinstance(t.left, ast.Name) and isinstance(t.comparators[0], ast.Constant)
+                    and t.comparators[0].value is None):
+                return None
+            ty = self.types.get(t.left.id, "")
+            if not ty.startswith("Opt:") or ty == "Opt:Int" or t.left.id in names or lean_type(ty) is None:
+                return None
+            if any(t.left.id in c["state"] for c in self.ctx):
+                return None
+            names.append(t.left.id)
+        if not isinstance(s.body[-1], (ast.Raise, ast.Return, ast.Continue, ast.Break)):
+            return None
+        saved = dict(self.types)
+        handler = self.block(list(s.body))
+        self.types = dict(saved)
+        for nm in names:
+            self.types[nm] = saved[nm][4:]
+        try:
+            okpath = self.block(rest)
+        finally:
+            self.types = saved
+        pats = ", ".join(f"some {lname(nm)}" for nm in names)
+        return (f"(match {', '.join(lname(nm) for nm in names)} with\n | {pats} =>\n {okpath}\n"
+                f" | {', '.join('_' for _ in names)} =>\n {handler})")
+
     def lazy_attribute(self, s, rest):
         """`if self.A is None: self.A = E` + `return self.A`  ->  E (see the module docstring), else None"""
         if not (self.loops and isinstance(s, ast.If) and not s.orelse and len(s.body) == 1 and rest
@@ -1364,8 +1558,10 @@ class K:
             finally:
                 self.pure += 1
         cut = self.spec.get("cut")
-        if cut and any(isinstance(nd, ast.Call) and isinstance(nd.func, ast.Attribute) and nd.func.attr == cut["before_call"]
-                       for nd in ast.walk(s)):
+        if cut and ((cut.get("before_stmt") and ast.dump(s) == canon(cut["before_stmt"]))
+                    or (cut.get("before_call") and any(
+                        isinstance(nd, ast.Call) and isinstance(nd.func, ast.Attribute)
+                        and nd.func.attr == cut["before_call"] for nd in ast.walk(s)))):
             if self.ctx or self.pure:
                 raise Unsupported("cut inside a loop or try")
             for nm, ty in cut["returns"]:
@@ -1475,9 +1671,15 @@ class K:
             if not isinstance(target, ast.Name):
                 raise Unsupported("assignment target")
             src = ast.unparse(value)
-            if ".parent" in src or "strip_location_info" in src:
+            if re.search(r"\.parent(_id)?(?![A-Za-z0-9_])", src) or "strip_location_info" in src:
                 self.opaque.add(target.id)          # parent bookkeeping: not part of the integer kernel
                 return self.block(rest)
+            while self.loops and isinstance(value, ast.IfExp):
+                # `a if <pinned parameter> else b`: decided statically, the other branch is never evaluated
+                bt_, ct_, tt_ = self.expr(value.test)
+                if bt_ or tt_ != "Prop" or ct_ not in ("True", "False"):
+                    break
+                value = value.body if ct_ == "True" else value.orelse
             if self.loops and isinstance(value, ast.IfExp):
                 probe_types = dict(self.types)
                 eff = bool(self.expr(value.body)[0] or self.expr(value.orelse)[0])
@@ -1551,6 +1753,9 @@ class K:
             ann = f" : {lt}" if lt else ""
             return self.wrap(b, f"let {lname(target.id)}{ann} := {c}\n" + self.block(rest))
         if isinstance(s, ast.If):
+            guarded = self.none_guard(s, rest)
+            if guarded is not None:
+                return guarded
             b, c, t = self.expr(s.test)
             if c == "True" and not b:
                 return self.block(s.body + rest)     # statically true (type test of a typed argument)
@@ -1699,6 +1904,28 @@ KERNELS = [
     dict(name="CDSInterval_construct_frames_from_location", file="gene/cds.py", cls="CDSInterval",
          fn="construct_frames_from_location", args=[("location", "CI"), ("starting_frame", "CDSFrame")],
          ret="List:CDSFrame", loops=True),
+    # ---- reading-frame cleaning (C05): `self` is a parent-less chromosome-level CDS, view `CDSV` =
+    # (chromosome_location : CI, frames : List CDSFrame); the iterators with their parameter pinned to the literal
+    # False that `_prepare_multi_exon_window_for_scan_codon_locations` passes
+    dict(name="CDSInterval_exon_iter", file="gene/cds.py", cls="CDSInterval", fn="_exon_iter",
+         args=[("self", "CDSV")], ret="List:SI", loops=True, generator=True, pinned={"chunk_relative_exon": False}),
+    dict(name="CDSInterval_frame_iter", file="gene/cds.py", cls="CDSInterval", fn="_frame_iter",
+         args=[("self", "CDSV")], ret="List:CDSFrame", loops=True, generator=True, pinned={"chunk_relative_frames": False}),
+    # CUT before `cleaned_blocks = [loc.relative_interval_to_parent_location(...) ...]`: returns
+    # (cleaned_rel_starts, cleaned_rel_ends); the parameters relative_window / chunk_relative_coordinates are only read
+    # in the pinned tail
+    dict(name="CDSInterval_clean_frames", file="gene/cds.py", cls="CDSInterval",
+         fn="_prepare_multi_exon_window_for_scan_codon_locations", args=[("self", "CDSV")], ret="IntLists2", loops=True,
+         locals={"cleaned_rel_starts": "List:Int", "cleaned_rel_ends": "List:Int"},
+         cut=dict(before_call="relative_interval_to_parent_location", ctor="Prod.mk",
+                  returns=[("cleaned_rel_starts", "List:Int"), ("cleaned_rel_ends", "List:Int")])),
+    # `cleaned_location` is a parent-less CompoundInterval (from_single_intervals / chromosome_location always build
+    # one); `loc_on_chrom` is read only through `.start` / `.end` (view SI).  CUT before
+    # `fivep_distance_mod3 = len(fivep_loc) % 3`: returns `fivep_loc` = the state of the generated
+    # relative_interval_to_parent_location at its own cut
+    dict(name="CDSInterval_calculate_frame_offset", file="gene/cds.py", cls="CDSInterval", fn="_calculate_frame_offset",
+         args=[("self", "CDSV"), ("cleaned_location", "CI"), ("loc_on_chrom", "SI")], ret="RelOut", loops=True,
+         cut=dict(before_stmt="fivep_distance_mod3 = len(fivep_loc) % 3", ctor=None, returns=[("fivep_loc", "RelOut")])),
 ]
 
 
@@ -1744,6 +1971,8 @@ def gen_kernels(repo, errors):
     EMITTED.clear()
     ci_bad = ci_view_guards(repo)
     pl_bad = parentless_guards(repo)
+    cdsv_bad = cdsv_view_guards(repo)
+    RAISES.clear()
     excsub = exc_subclasses(repo)
     for spec in KERNELS:
         try:
@@ -1752,9 +1981,12 @@ def gen_kernels(repo, errors):
             fn = find_func(container, spec["fn"])
             if spec.get("parentless") and pl_bad:
                 raise Unsupported("the parent-less view is not faithful to this source: " + "; ".join(pl_bad[:3]))
-            if any(t == "CI" for _, t in spec["args"]) and ci_bad:
+            if any(t == "CDSV" for _, t in spec["args"]) and cdsv_bad:
+                raise Unsupported("the CDSV view is not faithful to this source: " + "; ".join(cdsv_bad[:3]))
+            if any(t in ("CI", "CDSV") for _, t in spec["args"]) and ci_bad:
                 raise Unsupported("the CI view is not faithful to this source: " + "; ".join(ci_bad[:3]))
-            k = K(spec, module_consts(mod), cls=container if spec["cls"] else None, excsub=excsub)
+            k = K(spec, module_consts(mod), cls=container if spec["cls"] else None, excsub=excsub,
+                  imports=module_imports(mod))
             params = [a.arg for a in fn.args.args]
             want = [a for a, _ in spec["args"]]
             if params[:len(want)] != want:
@@ -1772,6 +2004,12 @@ def gen_kernels(repo, errors):
                 for nm, v in spec["fixed"].items():
                     if dmap.get(nm, Unsupported) is not v:
                         raise Unsupported(f"parameter {nm} is pinned to {v} but its default is {dmap.get(nm)!r}")
+            if spec.get("pinned"):
+                # trailing parameters pinned to the literal that every translated caller passes (checked at the call
+                # sites): must be exactly the remaining parameters, in order
+                extra = params[len(want):]
+                if extra != list(spec["pinned"]) or fn.args.kwonlyargs or fn.args.vararg or fn.args.kwarg or spec.get("fixed"):
+                    raise Unsupported(f"parameters beyond the modelled ones {extra} != pinned {list(spec['pinned'])}")
             stmts = list(fn.body)
             if spec.get("loops"):
                 stmts = body_no_doc(fn)
@@ -1793,7 +2031,7 @@ def gen_kernels(repo, errors):
             if spec.get("generator"):
                 body = f"let yield_ : {lean_type(spec['ret'])} := []\n" + body
             if spec.get("cut") and k.tail is None:
-                raise Unsupported(f"cut point (a call of {spec['cut']['before_call']}) not found")
+                raise Unsupported(f"cut point ({spec['cut'].get('before_call') or spec['cut'].get('before_stmt')}) not found")
             ret = (lean_type(spec["ret"]) or "Int") if spec["ret"] != "Unit" else "Int"
             args = " ".join(f"({a} : {lean_type(t)})" for a, t in
                             list(spec["args"]) + ([tuple(spec["head"]["binds"])] if spec.get("head") else []))
@@ -1803,7 +2041,8 @@ def gen_kernels(repo, errors):
                 out.append(f"/-- the statements of {spec['fn']} after the cut (not translated; pinned as text) -/")
                 out.append(f"def {spec['name']}_tail : List (List Char) :=\n  ["
                            + ",\n   ".join(lean_chars(x) for x in k.tail) + "]\n")
-                doc += (f" — CUT before the call of {spec['cut']['before_call']}: returns "
+                doc += (f" — CUT before " + (f"the call of {spec['cut']['before_call']}" if spec['cut'].get('before_call')
+                                             else f"`{spec['cut']['before_stmt']}`") + ": returns "
                         + " ".join(([spec["cut"]["ctor"]] if spec["cut"]["ctor"] else [])
                                    + [nm for nm, _ in spec["cut"]["returns"]]))
             if head is not None:
@@ -1812,6 +2051,8 @@ def gen_kernels(repo, errors):
                 out.append(f"def {spec['name']}_head : List (List Char) :=\n  ["
                            + ",\n   ".join(lean_chars(ast.unparse(x)) for x in head) + "]\n")
                 doc += f" — HEAD CUT: starts after `{ast.unparse(head[-1])}`, taking `{spec['head']['binds'][0]}` as an argument"
+            if spec.get("pinned"):
+                doc += " — view with " + ", ".join(f"{a}={v}" for a, v in spec["pinned"].items()) + " (as its callers pass)"
             if spec.get("fixed"):
                 doc += " — view with " + ", ".join(f"{a}={v}" for a, v in spec["fixed"].items()) + " (the defaults)"
             out.append(f"/-- {doc} -/")
@@ -1823,6 +2064,7 @@ def gen_kernels(repo, errors):
             done += 1
             names.append(spec["name"])
             EMITTED.add(spec["name"])
+            RAISES[spec["name"]] = ".error" in body or any(".error" in a_ for a_ in k.aux)
         except Unsupported as e:
             errors.append(f"kernel {spec['name']}: outside the translatable fragment: {e}")
         except Exception as e:  # noqa
